@@ -42,7 +42,11 @@ type c13Conn struct {
 	closes    atomic.Int32
 	writeMode atomic.Int32 // 0 ok, 1 error, 2 short
 	from      netip.AddrPort
+	tdone     <-chan struct{} // the transport this conn rides on (nil: the conn has no transport life cycle)
 }
+
+// netproxy.TransportLifecycle: the pool retires every endpoint of a transport when it ends
+func (c *c13Conn) TransportDone() <-chan struct{} { return c.tdone }
 
 func (c *c13Conn) Read(_ []byte) (int, error)  { return 0, io.EOF }
 func (c *c13Conn) Write(b []byte) (int, error) { return len(b), nil }
@@ -84,6 +88,7 @@ type c13Underlay struct {
 	from  netip.AddrPort
 	gate  func() // optional: called inside DialContext (concurrency replays park here)
 	last  *c13Conn
+	tch   chan struct{} // current transport of this dialer (nil: none)
 }
 
 func (d *c13Underlay) DialContext(context.Context, string, string) (netproxy.Conn, error) {
@@ -101,6 +106,9 @@ func (d *c13Underlay) DialContext(context.Context, string, string) (netproxy.Con
 	c := &c13Conn{reads: make(chan error, 16), closeCh: make(chan struct{}), from: d.from}
 	d.mu.Lock()
 	d.last = c
+	if d.tch != nil {
+		c.tdone = d.tch
+	}
 	d.mu.Unlock()
 	return c, nil
 }
@@ -179,6 +187,13 @@ func c13NewEpEnv() *c13EpEnv {
 	if c13RealMaps {
 		e.connState = c13NewConnStateMap()
 	}
+	defer func() {
+		if c13RealMaps { // the sequence stream: dialers whose conns ride on a transport with a life cycle
+			for _, u := range e.under {
+				u.tch = make(chan struct{})
+			}
+		}
+	}()
 	for i := 0; i < 2; i++ {
 		u := &c13Underlay{from: from}
 		e.under = append(e.under, u)
@@ -223,6 +238,18 @@ func (e *c13EpEnv) id(ue *UdpEndpoint) int {
 	e.ids[ue] = i
 	e.eps = append(e.eps, ue)
 	return i
+}
+
+func (e *c13EpEnv) registered(ue *UdpEndpoint) bool {
+	found := false
+	e.pool.dialerIndex.Range(func(_, b any) bool {
+		bucket := b.(*udpEndpointDialerBucket)
+		bucket.mu.RLock()
+		_, found = bucket.endpoints[ue]
+		bucket.mu.RUnlock()
+		return !found
+	})
+	return found
 }
 
 func (e *c13EpEnv) isPooled(ue *UdpEndpoint) bool {
@@ -283,8 +310,20 @@ func (e *c13EpEnv) digest(symOf map[int]bool) string {
 	if len(eps) > 0 {
 		es = strings.Join(eps, " ")
 	}
-	return fmt.Sprintf("pool=%s dials=%d drn=%d,%d trk0[%s] trk1[%s] eps=%s", ps, e.dials(), e.drains[0].Count(), e.drains[1].Count(),
-		e.trks[0].digest(e.tupleIdx), e.trks[1].digest(e.tupleIdx), es)
+	// the dialers' buckets (InvalidateDialerNetworkType's reverse index)
+	var reg []int
+	e.pool.dialerIndex.Range(func(_, b any) bool {
+		bucket := b.(*udpEndpointDialerBucket)
+		bucket.mu.RLock()
+		for ue := range bucket.endpoints {
+			reg = append(reg, e.id(ue))
+		}
+		bucket.mu.RUnlock()
+		return true
+	})
+	sort.Ints(reg)
+	return fmt.Sprintf("pool=%s dials=%d drn=%d,%d trk0[%s] trk1[%s] reg=%s eps=%s", ps, e.dials(), e.drains[0].Count(), e.drains[1].Count(),
+		e.trks[0].digest(e.tupleIdx), e.trks[1].digest(e.tupleIdx), c13JoinInts(reg), es)
 }
 
 func c13OptTok(i int) string {
@@ -411,6 +450,8 @@ type c13Window struct {
 	avoid   *udpEndpointPoolShard // shard whose creation mutex the parked creator holds
 	keys    []int                 // keys worth hitting (endpoints of the dialer under invalidation)
 	rng     *VRand                // generator for everything drawn inside the window
+	reset   bool                  // Reset() may happen inside this window
+	fresh   *UdpEndpoint          // published but not registered, read loop not started: no replies / read errors yet
 	noTime  bool                  // virtual time must stand still (a janitor pass is parked half-way)
 }
 
@@ -508,6 +549,22 @@ func c13EpSplitInvalidate(e *c13EpEnv, s *VStream, stats *VStats, r *VRand, symO
 	}
 	e.setWant()
 	emit("ep iend", fmt.Sprintf("removed=%d", <-done))
+}
+
+// the transport of dialer d ends: watchTransportLifecycle retires every endpoint riding on it
+func c13EpTransportDone(e *c13EpEnv, stats *VStats, d int, emit func(op, out string)) {
+	u := e.under[d]
+	u.mu.Lock()
+	old := u.tch
+	u.tch = make(chan struct{})
+	u.mu.Unlock()
+	if old == nil {
+		return
+	}
+	close(old)
+	synctest.Wait()
+	stats.Inc("ep.tdone")
+	emit(fmt.Sprintf("ep tdone %d", d), "ok")
 }
 
 // One janitor pass step by step: the tick | entries leave the table | (other operations) | each removed
@@ -691,7 +748,15 @@ func c13EpSplitCreate(e *c13EpEnv, s *VStream, stats *VStats, r *VRand, symOf ma
 		panic("c13: creator did not reach create.afterPublish")
 	}
 	newID := e.id(p2.ue)
-	emit("ep gocpub", fmt.Sprintf("new %d", newID))
+	// is the endpoint in its dialer's bucket already (registered inside the table write's critical section)?
+	pubOp := "ep gocpub"
+	if e.registered(p2.ue) {
+		pubOp = "ep gocpubreg"
+		stats.Inc("ep.split.create.registeredAtPublish")
+	} else {
+		stats.Inc("ep.split.create.registeredLater")
+	}
+	emit(pubOp, fmt.Sprintf("new %d", newID))
 	if r.Chance(0.7) {
 		// what other packet handlers can do with it already: look it up, send through it
 		ueG, okG := e.pool.Get(c13EpKey(k, symOf[k]))
@@ -711,6 +776,17 @@ func c13EpSplitCreate(e *c13EpEnv, s *VStream, stats *VStats, r *VRand, symOf ma
 			emit(fmt.Sprintf("ep write %d ok", newID), wout)
 		}
 		stats.Inc("ep.split.create.opsAfterPublish")
+	}
+	// anything else may happen as well: invalidations, Reset, the transport ending, other keys (not this
+	// shard: the creator still holds its creation mutex)
+	winPub := &c13Window{avoid: e.pool.shardFor(c13EpKey(k, symOf[k])), fresh: p2.ue, noTime: true, reset: true}
+	for j, n := 0, r.Intn(3); j < n; j++ {
+		if r.Chance(0.3) {
+			c13EpTransportDone(e, stats, r.Intn(2), emit)
+		} else {
+			doOp(r.Intn(100), winPub)
+		}
+		stats.Inc("ep.split.create.anyOpAfterPublish")
 	}
 	e.setWant()
 	close(p2.resume)
@@ -745,6 +821,15 @@ func c13RunEpSeq(t *testing.T, s *VStream, stats *VStats, r *VRand) {
 			for _, ue := range e.eps {
 				_ = ue.Close()
 			}
+			// let the transport watchers end
+			for _, u := range e.under {
+				u.mu.Lock()
+				if u.tch != nil {
+					close(u.tch)
+					u.tch = nil
+				}
+				u.mu.Unlock()
+			}
 			synctest.Wait()
 		}()
 		s.Emit("ep reset", "ok")
@@ -766,7 +851,7 @@ func c13RunEpSeq(t *testing.T, s *VStream, stats *VStats, r *VRand) {
 			if win != nil && win.rng != nil {
 				rng = win.rng
 			}
-			if win != nil && c >= 88 && c < 95 && (win.noInval || c >= 93) {
+			if win != nil && c >= 88 && c < 95 && (win.noInval || (c >= 93 && !win.reset)) {
 				c = rng.Intn(30) // no nested invalidation / Reset inside a window: a GetOrCreate instead
 			}
 			if win != nil && win.noTime && c >= 77 && c < 88 {
@@ -848,6 +933,9 @@ func c13RunEpSeq(t *testing.T, s *VStream, stats *VStats, r *VRand) {
 					return
 				}
 				ue := e.eps[id]
+				if win != nil && ue == win.fresh {
+					return
+				}
 				hok := !rng.Chance(0.15)
 				e.mu.Lock()
 				e.handlerKO[ue] = !hok
@@ -862,6 +950,9 @@ func c13RunEpSeq(t *testing.T, s *VStream, stats *VStats, r *VRand) {
 			case c < 69:
 				id := pickEp()
 				if id < 0 || e.eps[id].conn == nil {
+					return
+				}
+				if win != nil && e.eps[id] == win.fresh {
 					return
 				}
 				cn := e.eps[id].conn.(*c13Conn)
@@ -943,7 +1034,7 @@ func c13RunEpSeq(t *testing.T, s *VStream, stats *VStats, r *VRand) {
 			}
 		}
 		for i := 0; i < nops; i++ {
-			x := r.Intn(112)
+			x := r.Intn(115)
 			switch {
 			case x < 100:
 				doOp(x, nil)
@@ -951,8 +1042,10 @@ func c13RunEpSeq(t *testing.T, s *VStream, stats *VStats, r *VRand) {
 				c13EpSplitInvalidate(e, s, stats, r, symOf, emit, doOp)
 			case x < 108:
 				c13EpSplitJanitor(e, s, stats, r, symOf, emit, doOp)
-			default:
+			case x < 112:
 				c13EpSplitCreate(e, s, stats, r, symOf, emit, doOp, nats)
+			default:
+				c13EpTransportDone(e, stats, r.Intn(2), emit)
 			}
 		}
 		// quiesce: no traffic for longer than any NAT timeout -> the janitor closes what is left
